@@ -157,12 +157,31 @@ func (n *Node) evidenceView(h pc.SessionHeader) EvidenceView {
 	}
 	v := EvidenceView{Found: true, Num: ev.NumOfProofs, Len: len(ev.Proofs), Sealed: store.IsSealed(ev)}
 	for _, p := range ev.Proofs {
-		if rp, ok := p.(pc.RelayProof); ok {
+		// proofs read back from the store's database are pointers, freshly added ones are values
+		switch rp := p.(type) {
+		case pc.RelayProof:
 			v.Entropies = append(v.Entropies, rp.Entropy)
 			v.Hashes = append(v.Hashes, rp.HashStringWithSignature()[:16])
+		case *pc.RelayProof:
+			v.Entropies = append(v.Entropies, rp.Entropy)
+			v.Hashes = append(v.Hashes, rp.HashStringWithSignature()[:16])
+		default:
+			v.Entropies = append(v.Entropies, -1)
+			v.Hashes = append(v.Hashes, fmt.Sprintf("%T", p))
 		}
 	}
 	return v
+}
+
+// evidenceTotal sums the proofs of every evidence object the node holds (whatever header they were filed under).
+func (n *Node) evidenceTotal() int64 {
+	it := pc.EvidenceIterator(pc.GetPocketNode().EvidenceStore)
+	defer it.Close()
+	t := int64(0)
+	for ; it.Valid(); it.Next() {
+		t += it.Value().NumOfProofs
+	}
+	return t
 }
 
 // RelayOutcome of one HandleRelay call.
@@ -233,6 +252,8 @@ type BurstRes struct {
 	SealedNum int64 `json:"sealed_num"`
 	// ServedBeforeSeal: completion orders of calls that returned a signed response before the sealer started
 	ServedBeforeSealStart int64 `json:"served_before_seal_start"`
+	// DoneAtSealStart: calls with Order <= this value had returned before the sealer began
+	DoneAtSealStart int64 `json:"done_at_seal_start"`
 }
 
 func (e *Executor) relayOp(op MidOp, res *OffRes) {
@@ -248,10 +269,10 @@ func (e *Executor) relayOp(op MidOp, res *OffRes) {
 		}
 		r := s.Build()
 		hdr := pc.SessionHeader{ApplicationPubKey: PubHex(s.App), Chain: s.Chain, SessionBlockHeight: s.SBH}
-		before := n.evidenceView(hdr)
+		before, allBefore := n.evidenceView(hdr), n.evidenceTotal()
 		o := n.serve(r)
-		after := n.evidenceView(hdr)
-		b, _ := json.Marshal(map[string]interface{}{"outcome": o, "before": before, "after": after})
+		after, allAfter := n.evidenceView(hdr), n.evidenceTotal()
+		b, _ := json.Marshal(map[string]interface{}{"outcome": o, "before": before, "after": after, "all_before": allBefore, "all_after": allAfter})
 		res.Value, res.Code, res.Digest = string(b), o.Code, dig(o)
 	case "evidence":
 		var s RelaySpec
@@ -301,6 +322,7 @@ func (e *Executor) relayOp(op MidOp, res *OffRes) {
 		seal := func() {
 			defer sealWG.Done()
 			atomic.StoreInt64(&out.ServedBeforeSealStart, atomic.LoadInt64(&servedDone))
+			atomic.StoreInt64(&out.DoneAtSealStart, atomic.LoadInt64(&done))
 			store := pc.GetPocketNode().EvidenceStore
 			it := pc.EvidenceIterator(store)
 			for ; it.Valid(); it.Next() {
